@@ -17,6 +17,12 @@
 // The helper used and the order of the tests are deliberately not part of a row, so that a
 // behaviour-preserving rewrite of a guard does not change the table; which constant guards
 // which method does.
+//
+// Unexported functions and methods of the package (any non-test file of x/marker/keeper) are
+// helpers: what a helper tests is attributed to every function that calls it (transitively), and a
+// helper that is reached this way gets no row of its own.  Extracting a condition into a helper, or
+// inlining one, therefore leaves the table unchanged.  A helper of marker.go / msg_server.go with
+// guards that nothing in those files calls keeps its own row (nothing is dropped).
 package main
 
 import (
@@ -31,6 +37,8 @@ import (
 	"path/filepath"
 	"sort"
 	"strings"
+	"unicode"
+	"unicode/utf8"
 )
 
 type row struct {
@@ -96,16 +104,127 @@ func recvName(fd *ast.FuncDecl) string {
 	return "?"
 }
 
+type fn struct {
+	row     row
+	callees map[string]bool // unexported functions / methods called, by name
+	helper  bool            // unexported
+	emit    bool            // declared in marker.go / msg_server.go
+}
+
+func isUnexported(name string) bool {
+	r, _ := utf8.DecodeRuneInString(name)
+	return unicode.IsLower(r) || r == '_'
+}
+
+func analyse(fset *token.FileSet, fd *ast.FuncDecl, file string) *fn {
+	name := fd.Name.Name
+	if r := recvName(fd); r != "" {
+		name = r + "." + name
+	}
+	rw := row{Func: name, File: file, Tests: []string{}, Unrecognised: []string{}}
+	out := &fn{callees: map[string]bool{}, helper: isUnexported(fd.Name.Name)}
+	tests := map[string]bool{}
+	consumed := map[ast.Expr]bool{} // Access_ constants that were arguments of a predicate
+	ast.Inspect(fd.Body, func(n ast.Node) bool {
+		c, ok := n.(*ast.CallExpr)
+		if !ok {
+			return true
+		}
+		cn := calleeName(c)
+		if cn != "" && isUnexported(cn) {
+			out.callees[cn] = true
+		}
+		switch {
+		case predicates[cn]:
+			found := false
+			for _, a := range c.Args {
+				if nm, ok := accessConst(a); ok {
+					consumed[a] = true
+					found = true
+					if known[nm] {
+						tests[nm] = true
+					} else {
+						rw.Unrecognised = append(rw.Unrecognised, "unknown right in "+text(fset, c))
+					}
+				}
+			}
+			if !found {
+				rw.Unrecognised = append(rw.Unrecognised, "access predicate without a constant: "+text(fset, c))
+			}
+		case cn == "GetManager":
+			rw.Manager = true
+		case cn == "GetAuthority" || cn == "ValidateAuthority":
+			rw.Authority = true
+		case cn == "accountControlsAllSupply":
+			rw.AllSupply = true
+		case cn == "GrantsForAddress":
+			rw.AnyGrant = true
+		}
+		return true
+	})
+	// every other mention of an Access_ constant
+	var stack []ast.Node
+	ast.Inspect(fd.Body, func(n ast.Node) bool {
+		if n == nil {
+			stack = stack[:len(stack)-1]
+			return true
+		}
+		stack = append(stack, n)
+		if e, ok := n.(ast.Expr); ok {
+			if consumed[e] {
+				stack = stack[:len(stack)-1]
+				return false
+			}
+			if _, isAcc := accessConst(e); isAcc {
+				// report the innermost enclosing call (or the expression itself)
+				var ctx ast.Node = e
+				for i := len(stack) - 2; i >= 0; i-- {
+					if c, ok := stack[i].(*ast.CallExpr); ok {
+						ctx = c
+						break
+					}
+				}
+				rw.Unrecognised = append(rw.Unrecognised, text(fset, ctx))
+				stack = stack[:len(stack)-1]
+				return false
+			}
+		}
+		return true
+	})
+	for k := range tests {
+		rw.Tests = append(rw.Tests, k)
+	}
+	out.row = rw
+	return out
+}
+
 func main() {
 	if len(os.Args) < 2 {
 		fmt.Fprintln(os.Stderr, "usage: markeraccess <repo>")
 		os.Exit(2)
 	}
-	var rows []row
-	for _, f := range []string{"marker.go", "msg_server.go"} {
-		path := filepath.Join(os.Args[1], "x", "marker", "keeper", f)
+	dir := filepath.Join(os.Args[1], "x", "marker", "keeper")
+	entries, err := os.ReadDir(dir)
+	if err != nil {
+		fmt.Fprintln(os.Stderr, err)
+		os.Exit(1)
+	}
+	emitFiles := map[string]bool{"marker.go": true, "msg_server.go": true}
+	for f := range emitFiles {
+		if _, err := os.Stat(filepath.Join(dir, f)); err != nil {
+			fmt.Fprintln(os.Stderr, err)
+			os.Exit(1)
+		}
+	}
+	var all []*fn
+	helpers := map[string][]*fn{} // by bare name
+	for _, e := range entries {
+		f := e.Name()
+		if e.IsDir() || !strings.HasSuffix(f, ".go") || strings.HasSuffix(f, "_test.go") {
+			continue
+		}
 		fset := token.NewFileSet()
-		file, err := parser.ParseFile(fset, path, nil, 0)
+		file, err := parser.ParseFile(fset, filepath.Join(dir, f), nil, 0)
 		if err != nil {
 			fmt.Fprintln(os.Stderr, err)
 			os.Exit(1)
@@ -115,84 +234,78 @@ func main() {
 			if !ok || fd.Body == nil {
 				continue
 			}
-			name := fd.Name.Name
-			if r := recvName(fd); r != "" {
-				name = r + "." + name
+			x := analyse(fset, fd, f)
+			x.emit = emitFiles[f]
+			all = append(all, x)
+			if x.helper {
+				helpers[fd.Name.Name] = append(helpers[fd.Name.Name], x)
 			}
-			rw := row{Func: name, File: f, Tests: []string{}, Unrecognised: []string{}}
-			tests := map[string]bool{}
-			consumed := map[ast.Expr]bool{} // Access_ constants that were arguments of a predicate
-			ast.Inspect(fd.Body, func(n ast.Node) bool {
-				c, ok := n.(*ast.CallExpr)
-				if !ok {
-					return true
+		}
+	}
+	// which helpers are reached from some other function of the emitted files
+	reached := map[*fn]bool{}
+	var closure func(x *fn, seen map[*fn]bool)
+	closure = func(x *fn, seen map[*fn]bool) {
+		for c := range x.callees {
+			for _, h := range helpers[c] {
+				if !seen[h] {
+					seen[h] = true
+					closure(h, seen)
 				}
-				cn := calleeName(c)
-				switch {
-				case predicates[cn]:
-					found := false
-					for _, a := range c.Args {
-						if nm, ok := accessConst(a); ok {
-							consumed[a] = true
-							found = true
-							if known[nm] {
-								tests[nm] = true
-							} else {
-								rw.Unrecognised = append(rw.Unrecognised, "unknown right in "+text(fset, c))
-							}
-						}
-					}
-					if !found {
-						rw.Unrecognised = append(rw.Unrecognised, "access predicate without a constant: "+text(fset, c))
-					}
-				case cn == "GetManager":
-					rw.Manager = true
-				case cn == "GetAuthority" || cn == "ValidateAuthority":
-					rw.Authority = true
-				case cn == "accountControlsAllSupply":
-					rw.AllSupply = true
-				case cn == "GrantsForAddress":
-					rw.AnyGrant = true
-				}
-				return true
-			})
-			// every other mention of an Access_ constant
-			var stack []ast.Node
-			ast.Inspect(fd.Body, func(n ast.Node) bool {
-				if n == nil {
-					stack = stack[:len(stack)-1]
-					return true
-				}
-				stack = append(stack, n)
-				if e, ok := n.(ast.Expr); ok {
-					if consumed[e] {
-						stack = stack[:len(stack)-1]
-						return false
-					}
-					if _, isAcc := accessConst(e); isAcc {
-						// report the innermost enclosing call (or the expression itself)
-						var ctx ast.Node = e
-						for i := len(stack) - 2; i >= 0; i-- {
-							if c, ok := stack[i].(*ast.CallExpr); ok {
-								ctx = c
-								break
-							}
-						}
-						rw.Unrecognised = append(rw.Unrecognised, text(fset, ctx))
-						stack = stack[:len(stack)-1]
-						return false
-					}
-				}
-				return true
-			})
-			for k := range tests {
-				rw.Tests = append(rw.Tests, k)
 			}
-			sort.Strings(rw.Tests)
-			sort.Strings(rw.Unrecognised)
-			if len(rw.Tests) > 0 || rw.Manager || rw.Authority || rw.AllSupply || rw.AnyGrant || len(rw.Unrecognised) > 0 {
-				rows = append(rows, rw)
+		}
+	}
+	closures := map[*fn]map[*fn]bool{}
+	for _, x := range all {
+		if !x.emit {
+			continue
+		}
+		seen := map[*fn]bool{x: true}
+		closure(x, seen)
+		delete(seen, x)
+		closures[x] = seen
+		for h := range seen {
+			reached[h] = true
+		}
+	}
+	var rows []row
+	for _, x := range all {
+		if !x.emit || (x.helper && reached[x]) {
+			continue
+		}
+		rw := x.row
+		tests := map[string]bool{}
+		for _, t := range rw.Tests {
+			tests[t] = true
+		}
+		unrec := map[string]bool{}
+		for _, u := range rw.Unrecognised {
+			unrec[u] = true
+		}
+		for h := range closures[x] {
+			for _, t := range h.row.Tests {
+				tests[t] = true
 			}
+			for _, u := range h.row.Unrecognised {
+				unrec[u] = true
+			}
+			rw.Manager = rw.Manager || h.row.Manager
+			rw.Authority = rw.Authority || h.row.Authority
+			rw.AllSupply = rw.AllSupply || h.row.AllSupply
+			rw.AnyGrant = rw.AnyGrant || h.row.AnyGrant
+		}
+		rw.Tests = []string{}
+		for t := range tests {
+			rw.Tests = append(rw.Tests, t)
+		}
+		rw.Unrecognised = []string{}
+		for u := range unrec {
+			rw.Unrecognised = append(rw.Unrecognised, u)
+		}
+		sort.Strings(rw.Tests)
+		sort.Strings(rw.Unrecognised)
+		if len(rw.Tests) > 0 || rw.Manager || rw.Authority || rw.AllSupply || rw.AnyGrant || len(rw.Unrecognised) > 0 {
+			rows = append(rows, rw)
 		}
 	}
 	sort.Slice(rows, func(i, j int) bool { return rows[i].Func < rows[j].Func })
